@@ -247,19 +247,17 @@ func c05Overlays() []core.Canary {
 import "github.com/whatap/golib/io"
 
 type zzCanaryLayout struct {
-	AbstractPack
 	A int32
 	B int64
 }
 
-// writer and "its" reader agree with each other, the reference says otherwise
+// writer and "its" reader agree with each other, the reference says otherwise (the canary stands on
+// its own: it must fire whatever state the real header writer is in)
 func (this *zzCanaryLayout) Write(o *io.DataOutputX) {
-	this.AbstractPack.Write(o)
 	o.WriteLong(this.B)
 	o.WriteInt(this.A)
 }
 func zzSpecCanaryLayout(this *zzCanaryLayout, din *io.DataInputX) {
-	zzSpecHeader(&this.AbstractPack, din)
 	this.A = din.ReadInt()
 	this.B = din.ReadLong()
 }
